@@ -66,7 +66,7 @@ template <class G> void run_c01(vf::Report& R) {
     ref::Real linx = g.lin_scale_M(Mx);
     std::string dx = "{" + vf::kv("X", vf::hexvec(X.coeffs())) + "," + vf::kv("X_dec", vf::decvec(X.coeffs()));
     // ---- unary cells
-    if (R.mine() && (R.args.replay.empty() || R.args.replay.find("/" + xa.key) != std::string::npos)) {
+    if (R.mine() && R.want(xa.key)) {
       ++R.states;
       if (xa.theta != 0 && distinct.insert(xa.key).second) ++R.nontrivial;
       // inverse
@@ -94,7 +94,7 @@ template <class G> void run_c01(vf::Report& R) {
     for (size_t k = 0; k < pts.size(); ++k) {
       if (!R.mine()) continue;
       std::string key = xa.key + "," + pts[k].second;
-      if (!R.args.replay.empty() && R.args.replay.find("/" + key) == std::string::npos) continue;
+      if (!R.want(key)) continue;
       P p = vf::fromL<P>(pts[k].first);
       ref::Vec pl = vf::toL(p);
       P r = X.act(p);
@@ -111,7 +111,7 @@ template <class G> void run_c01(vf::Report& R) {
       if (!R.mine()) continue;
       const lat::XAtom& ya = ys[j];
       std::string key = xa.key + "*" + ya.key;
-      if (!R.args.replay.empty() && R.args.replay.find("/" + key) == std::string::npos) continue;
+      if (!R.want(key)) continue;
       G Y = vf::make_elem<G>(ya.c);
       ref::Mat My = vf::Mof(Y);
       G Z = X.compose(Y);
@@ -138,7 +138,7 @@ template <class G> void run_c01(vf::Report& R) {
       for (size_t k = 0; k < z3.size(); ++k) {
         if (!R.mine()) continue;
         std::string key = "(" + z3[i].key + ")(" + z3[j].key + ")(" + z3[k].key + ")";
-        if (!R.args.replay.empty() && R.args.replay.find("/" + key) == std::string::npos) continue;
+        if (!R.want(key)) continue;
         G X = vf::make_elem<G>(z3[i].c), Y = vf::make_elem<G>(z3[j].c), Z = vf::make_elem<G>(z3[k].c);
         ref::Mat E = vf::Mof(X) * vf::Mof(Y) * vf::Mof(Z);
         ref::Real lin = g.lin_scale_M(vf::Mof(X).cwiseAbs() * vf::Mof(Y).cwiseAbs() * vf::Mof(Z).cwiseAbs());
